@@ -19,6 +19,7 @@ import (
 
 	apiext "github.com/koordinator-sh/koordinator/apis/extension"
 	"github.com/koordinator-sh/koordinator/pkg/koordlet/resourceexecutor"
+	"github.com/koordinator-sh/koordinator/pkg/koordlet/runtimehooks/protocol"
 	"github.com/koordinator-sh/koordinator/pkg/koordlet/statesinformer"
 	koordletutil "github.com/koordinator-sh/koordinator/pkg/koordlet/util"
 	sysutil "github.com/koordinator-sh/koordinator/pkg/koordlet/util/system"
@@ -204,6 +205,30 @@ func c12ncScaled(q int64, ratio float64) int64 {
 		return int64(math.Ceil(float64(q) / ratio))
 	}
 	return q
+}
+
+// the facts Props/C12.lean `ScaleOK` assumes of q -> int64(ceil(float64(q)/ratio)), re-evaluated on the quotas of a round
+func c12ncScaleOK(ratio float64, qs []int64) (bool, string) {
+	sc := func(q int64) int64 {
+		if ratio > 1.0 {
+			return int64(math.Ceil(float64(q) / ratio))
+		}
+		return q
+	}
+	for _, a := range qs {
+		if a <= 0 {
+			continue
+		}
+		if sc(a) <= 0 || sc(a) > a {
+			return false, fmt.Sprintf("scale(%d)=%d at ratio %v", a, sc(a), ratio)
+		}
+		for _, b := range qs {
+			if a <= b && sc(a) > sc(b) {
+				return false, fmt.Sprintf("scale(%d)=%d > scale(%d)=%d at ratio %v", a, sc(a), b, sc(b), ratio)
+			}
+		}
+	}
+	return true, ""
 }
 
 type c12ncPod struct {
@@ -425,7 +450,7 @@ func TestVerifC12NormCb(t *testing.T) {
 			var metas []*statesinformer.PodMeta
 			var shown []*c12ncPod
 			for _, q := range pods {
-				if !r.Chance(1, 10) {
+				if !r.Chance(1, 10) && !(len(pods) > 1 && r.Chance(1, 6)) {
 					metas = append(metas, q.meta)
 					shown = append(shown, q)
 				}
@@ -477,6 +502,21 @@ func TestVerifC12NormCb(t *testing.T) {
 			}
 			h.Obs("st %s", vInts(final))
 
+			// float assumption of rule_targets_valid
+			{
+				var qs []int64
+				for _, q := range pods {
+					if q.own {
+						qs = append(qs, podBase(q))
+						for _, l := range q.lims {
+							qs = append(qs, c12ncBase(l))
+						}
+					}
+				}
+				if ok, why := c12ncScaleOK(ratio, qs); !ok {
+					h.Fail("C12:float-assumption", "ScaleOK does not hold: %s", why)
+				}
+			}
 			// ---------------- property oracle ----------------
 			changed := 0
 			for i := range tgt {
@@ -543,4 +583,112 @@ func TestVerifC12NormCb(t *testing.T) {
 		"containers in a temp cgroup root (cgroup v1/v2, systemd/cgroupfs), start = kubelet values / values of a random ratio / unlimited; 1-4 rounds of ratio changes " +
 		"(annotation removed / 0.8 / 1.0 .. 3.0 through parseRule), a random 90% of the pods shown, cache fresh or force-expired, then the real ruleUpdateCb; " +
 		"non-trivial = full oracle and >= 1 dir changes; distinct by op lines")
+}
+
+// C12 harness `normquota`: the arithmetic behind the targets of the cpu-normalization callback (Model/C12Rule.lean,
+// linked into the driver): one line = one LS pod handed to the real AdjustPodCFSQuota / AdjustContainerCFSQuota
+// through FromReconciler under a ratio k/100 (or none); observation = the quotas put into the responses (-2 = left nil).
+// Oracle = rule_targets_valid's statement on the quotas that are set.
+func TestVerifC12NormQuota(t *testing.T) {
+	h := vOpen("C12")
+	if h == nil {
+		t.Skip("VERIF_OUT not set")
+	}
+	sysutil.SetupCgroupPathFormatter(sysutil.Systemd)
+	ratios := []int64{-100, 100, 101, 110, 120, 133, 150, 200, 300, 80, 99, 1000, 117}
+	n := h.N(1500, 40000)
+	for idx := 0; idx < n; idx++ {
+		r := h.Begin(idx)
+		if r == nil {
+			continue
+		}
+		lines := r.Range(1, 4)
+		for ln := 0; ln < lines; ln++ {
+			ratio100 := ratios[r.Intn(len(ratios))]
+			if r.Chance(1, 4) {
+				ratio100 = int64(r.Range(90, 400))
+			}
+			p := newPlugin()
+			if ratio100 > 0 {
+				p.rule.UpdateRule(float64(ratio100) / 100.0)
+			} else if r.Bool() {
+				p.rule.UpdateRule(-1)
+			}
+			pod := &corev1.Pod{
+				ObjectMeta: metav1.ObjectMeta{Name: "p", Namespace: "ns", UID: "u", Labels: map[string]string{apiext.LabelPodQoS: string(apiext.QoSLS)}},
+				Status:     corev1.PodStatus{Phase: corev1.PodRunning},
+			}
+			nc := r.Range(1, 4)
+			var lims []int64
+			for ci := 0; ci < nc; ci++ {
+				lim := r.Pick(c12ncLimPool)
+				switch r.Intn(5) {
+				case 0:
+					lim = int64(r.Range(1, 64000))
+				case 1:
+					lim = int64(r.Range(1, 40)) * 100
+				case 2:
+					lim = 0 // no cpu limit on this container
+				}
+				cname := fmt.Sprintf("c%d", ci)
+				c := corev1.Container{Name: cname}
+				c.Resources.Requests = corev1.ResourceList{corev1.ResourceCPU: *resource.NewMilliQuantity(100, resource.DecimalSI)}
+				if lim > 0 {
+					c.Resources.Limits = corev1.ResourceList{corev1.ResourceCPU: *resource.NewMilliQuantity(lim, resource.DecimalSI)}
+				} else if r.Bool() {
+					c.Resources.Limits = corev1.ResourceList{corev1.ResourceMemory: *resource.NewQuantity(1<<30, resource.BinarySI)}
+				}
+				pod.Spec.Containers = append(pod.Spec.Containers, c)
+				pod.Status.ContainerStatuses = append(pod.Status.ContainerStatuses, corev1.ContainerStatus{Name: cname, ContainerID: "containerd://k" + cname})
+				lims = append(lims, lim)
+			}
+			meta := &statesinformer.PodMeta{Pod: pod, CgroupDir: "kubepods.slice/kubepods-burstable.slice/kubepods-burstable-podu.slice/"}
+			h.Op("nq %d %s", ratio100, vInts(lims))
+			out := make([]int64, 0, nc+1)
+			get := func(q *int64) int64 {
+				if q == nil {
+					return -2
+				}
+				return *q
+			}
+			if h.Guard(func() {
+				podCtx := &protocol.PodContext{}
+				podCtx.FromReconciler(meta)
+				if err := p.AdjustPodCFSQuota(podCtx); err != nil {
+					out = append(out, -3)
+				} else {
+					out = append(out, get(podCtx.Response.Resources.CFSQuota))
+				}
+				for _, cs := range pod.Status.ContainerStatuses {
+					cctx := &protocol.ContainerContext{}
+					cctx.FromReconciler(meta, cs.Name, false)
+					if err := p.AdjustContainerCFSQuota(cctx); err != nil {
+						out = append(out, -3)
+					} else {
+						out = append(out, get(cctx.Response.Resources.CFSQuota))
+					}
+				}
+			}) {
+				h.Obs("panic")
+				continue
+			}
+			h.Obs("q %s", vInts(out))
+			h.Nontrivial()
+			mixed := false
+			for _, l := range lims {
+				if l == 0 {
+					mixed = true
+				}
+			}
+			h.Tag(fmt.Sprintf("normquota:on=%d:scaled=%d:some-container-unlimited=%d", vB(ratio100 > 0), vB(ratio100 > 100), vB(mixed)))
+			for i := 1; i < len(out); i++ {
+				if out[0] == -3 || out[i] == -3 || (out[0] >= 0 && out[i] >= 0 && out[i] > out[0]) {
+					h.Fail("C12:normquota-target-invalid", "ratio %d/100 limits %v: quotas %v - container %d is not within its pod", ratio100, lims, out, i-1)
+					break
+				}
+			}
+		}
+		h.End()
+	}
+	h.Close("1-4 LS pods per case, 1-4 containers with cpu limits 1m..64000m or none, ratio none / 0.8 .. 10.0 in hundredths; every case non-trivial; distinct by op lines")
 }
